@@ -452,13 +452,13 @@ def gen_cases(rng, tier):
         add(gen_stream(rng), 'stream')
     seeds = seed_files()
     for name, b in seeds:
-        add(case('load', XB(b)), 'load-valid-' + name)
-        add(case('incload', XB(b)), 'incload-valid-' + name)
+        add(case('load', XB(b)), 'load-valid')
+        add(case('incload', XB(b)), 'incload-valid')
     for _ in range(420 if q else 15000):
         name, b = rng.choice(seeds)
         k, m = mutate(rng, b)
         if rng.random() < 0.25:
-            k2, m = mutate(rng, m); k = k + '+' + k2
+            k2, m = mutate(rng, m); k = 'double'
         add(case(rng.choice(['load', 'load', 'load', 'incload']), XB(m)), 'load-' + k)
     # adversarial whole files
     n = 300 if q else 20000
